@@ -2,7 +2,11 @@ package checks
 
 import (
 	"bytes"
+	"context"
+	"encoding/json"
 	"fmt"
+	"os"
+	"os/exec"
 	"sort"
 	"strings"
 	"sync"
@@ -488,7 +492,26 @@ func C16(rep *ev.Reporter, tier string) {
 		rep.Exhaustive = false
 		rep.Coverage["caps_hit"] = "time budget"
 	}
-	rep.Coverage["rule"] = fmt.Sprintf("breadth-first search over operation histories (depth <= %d) on one library with two knowledge bases, in two spaces: (A,1)/(A,2) and the separator-collision pair (a:b,c)/(a,b:c). Operations per knowledge base: build X1, build X2 (same name, other body), build Y, build 'X1 X2' in one resource, build a duplicate of X followed by a rule with a syntax error (while X exists), BuildRuleFromResources over two resources ('X2','Y' and 'Y','X1': the call ends at the first rejected resource), library-level RemoveRuleEntry(X|Y), store + load with overwrite, store alone (checkpoint), create + execute an instance in the middle of the history. States are deduplicated on the MODEL state (active rules per knowledge base + whether a build was rejected there + whether a checkpoint store was taken / an instance was created, and whether the knowledge base changed after it); every transition replays its history on a fresh library with the real builder/serializer. After every step: build error iff the model says duplicate; for every knowledge base a fresh instance can be created and its FetchMatchingRules + Execute observation equals that of the model's active rule texts built alone; instance-level removal changes only that instance; a rule removed from the running instance in a listener callback (cycle 1 or 2) is neither evaluated nor fired from then on. states/transitions are those of the library model; every transition is non-trivial (it is validated against the implementation).", depth)
+	if bin := os.Getenv("VERIF_C16_POINTS_BIN"); bin != "" && rep.ReplayFilter == "" {
+		cctx, ccancel := context.WithTimeout(context.Background(), 4*time.Minute)
+		op, err := exec.CommandContext(cctx, bin, "C16-worker", "x").Output()
+		ccancel()
+		var co c16ConcOut
+		if err != nil || json.Unmarshal([]byte(strings.TrimSpace(lastLine(string(op)))), &co) != nil {
+			fmt.Printf("note: the concurrent-scenario worker did not deliver (%v); skipped\n", err)
+		} else {
+			rep.Coverage["concurrent_add_remove_scenarios"] = co.Scenarios
+			for _, v := range co.Violations {
+				rep.Violation("C16:concurrent-add-remove-not-linearizable", v, map[string]interface{}{"case": "c16/concurrent"})
+			}
+			for _, sc := range co.Scenarios {
+				if n, ok := sc["schedules"].(float64); ok {
+					transitions += int(n)
+				}
+			}
+		}
+	}
+	rep.Coverage["rule"] = fmt.Sprintf("breadth-first search over operation histories (depth <= %d) on one library with two knowledge bases, in two spaces: (A,1)/(A,2) and the separator-collision pair (a:b,c)/(a,b:c). Operations per knowledge base: build X1, build X2 (same name, other body), build Y, build 'X1 X2' in one resource, build a duplicate of X followed by a rule with a syntax error (while X exists), BuildRuleFromResources over two resources ('X2','Y' and 'Y','X1': the call ends at the first rejected resource), library-level RemoveRuleEntry(X|Y), store + load with overwrite, store alone (checkpoint), create + execute an instance in the middle of the history. States are deduplicated on the MODEL state (active rules per knowledge base + whether a build was rejected there + whether a checkpoint store was taken / an instance was created, and whether the knowledge base changed after it); every transition replays its history on a fresh library with the real builder/serializer. After every step: build error iff the model says duplicate; for every knowledge base a fresh instance can be created and its FetchMatchingRules + Execute observation equals that of the model's active rule texts built alone; instance-level removal changes only that instance; a rule removed from the running instance in a listener callback (cycle 1 or 2) is neither evaluated nor fired from then on. states/transitions are those of the library model; every transition is non-trivial (it is validated against the implementation). Plus concurrent AddRuleEntry / RemoveRuleEntry on one knowledge base under the cooperative scheduler (yield points at method entries and Lock calls, 2 threads, <= 3 preemptions): returned errors and final rule map of every interleaving equal those of a sequential order.", depth)
 }
 
 // c16HistClass names the operation kinds that matter for a signature: the last op and whether a
@@ -525,4 +548,12 @@ func c16HistClass(prev []c16Op, last c16Op) string {
 		flags = append(flags, "library-removal")
 	}
 	return last.kind + "+" + strings.Join(flags, "+")
+}
+
+func lastLine(s string) string {
+	s = strings.TrimSpace(s)
+	if i := strings.LastIndexByte(s, '\n'); i >= 0 {
+		return s[i+1:]
+	}
+	return s
 }
